@@ -1050,10 +1050,16 @@ class Interp(object):
         g = e.generators[0]
         it = self.ev(g.iter, env, ctx)
         env2 = dict(env)
-        tag = "%s@c" % norm_text(g.target)
+        # canonical (alpha-renamed) comprehension variable: depth of nesting, not the source name
+        depth = getattr(self, "_comp_depth", 0)
+        tag = "c%d@c" % depth
         st = State(env2)
         self.assign(g.target, self.loop_target_value(g.target, it, tag), st, ctx, e)
-        elt = self.ev(e.elt, st.env, ctx)
+        self._comp_depth = depth + 1
+        try:
+            elt = self.ev(e.elt, st.env, ctx)
+        finally:
+            self._comp_depth = depth
         return Rat.atom(Fn("listcomp", (elt, tag, _itkey(it))))
 
     ev_GeneratorExp = ev_ListComp
